@@ -58,6 +58,20 @@ def Tbl.recv (p : Tbl) (k : Id) : Tbl := p.set k (hit (p k))
 /-- `_box` of the by-reference objects of one message, in boxing order -/
 def addAll (t : Tbl) (ks : List Id) : Tbl := ks.foldl Tbl.add t
 
+/-- the slot after `decref(key, 1)` used to take one registration back (`Connection._unregister`); an absent key is ignored -/
+def unbump : Option Nat → Option Nat
+  | none => none
+  | some m => dropBy m 1
+
+def Tbl.unadd (t : Tbl) (k : Id) : Tbl := t.set k (unbump (t k))
+
+def unaddAll (t : Tbl) (ks : List Id) : Tbl := ks.foldl Tbl.unadd t
+
+/-- what `_box` followed by a `brine.dump` that refuses the message leaves in the table: `released` (the generated
+constant `failedSendReleases`) says whether the code takes the registrations back -/
+def failedBox (released : Bool) (t : Tbl) (ks : List Id) : Tbl :=
+  if released then unaddAll (addAll t ks) ks else addAll t ks
+
 /-- `_unbox` of the `REMOTE_REF`s of one message, in order -/
 def recvAll (p : Tbl) (ks : List Id) : Tbl := ks.foldl Tbl.recv p
 
@@ -82,6 +96,9 @@ inductive MsgP where
   | fetch (ks : List Id)
   /-- `MSG_REPLY` to a request of the owner (carries a plain value) -/
   | reply
+  /-- a request whose result is the objects `ks` together with a plain value brine cannot serialize (an int beyond
+  the str() digit limit, a tuple nested too deep): the owner boxes the result and then cannot send it -/
+  | fetchBad (ks : List Id)
   deriving DecidableEq, Repr
 
 structure St where
@@ -102,6 +119,10 @@ inductive Op where
   | send (ks : List Id)
   /-- the peer sends a request whose reply will carry `ks` -/
   | fetch (ks : List Id)
+  /-- the owner tries to send a request carrying `ks` and a plain value brine cannot serialize: boxed, never sent -/
+  | sendFail (ks : List Id)
+  /-- the peer sends a request whose result (`ks` and such a value) the owner will not be able to send -/
+  | fetchBad (ks : List Id)
   /-- the peer passes its live proxy of `k` back to the owner -/
   | back (k : Id) (echo : Bool)
   /-- the proxy of `k` is finalized (`BaseNetref.__del__` runs) -/
@@ -123,6 +144,8 @@ inductive Out where
   /-- the operation needs a live proxy that does not exist: nothing happens -/
   | disabled
   | closed
+  /-- the message could not be serialized: the sender gets the exception, a requester an exception reply -/
+  | unsendable
   deriving DecidableEq, Repr
 
 /-- the owner dispatches one request / reply (`_dispatch`) -/
@@ -140,6 +163,9 @@ def handleP (s : St) : MsgP → Out × St
       else (.ok, { s with o2p := s.o2p ++ [.reply [] false] })
   | .fetch ks => (.ok, { s with tbl := addAll s.tbl ks, o2p := s.o2p ++ [.reply ks true] })
   | .reply => (.ok, s)
+  | .fetchBad ks =>
+    -- `_box(res)` registered `ks`, `_send` raised, `_send_exception` answers instead
+    (.unsendable, { s with tbl := failedBox Gen.Box.failedSendReleases s.tbl ks, o2p := s.o2p ++ [.exc true] })
 
 /-- the peer dispatches one request / reply -/
 def handleO (s : St) : MsgO → Out × St
@@ -176,6 +202,8 @@ def step (s : St) (op : Op) : Out × St :=
   match op with
   | .send ks => (.ok, { s with tbl := addAll s.tbl ks, o2p := s.o2p ++ [.req ks] })
   | .fetch ks => (.ok, { s with p2o := s.p2o ++ [.fetch ks] })
+  | .sendFail ks => (.unsendable, { s with tbl := failedBox Gen.Box.failedSendReleases s.tbl ks })
+  | .fetchBad ks => (.ok, { s with p2o := s.p2o ++ [.fetchBad ks] })
   | .back k echo => passBack s k echo
   | .finalize k => finalize s k
   | .deliverO2P => deliverO2P s
@@ -288,6 +316,8 @@ inductive AOp where
   | send (ks : List Id)
   | fetch (ks : List Id)
   | back (k : Id) (echo : Bool)
+  | sendFail (ks : List Id)
+  | fetchFail (ks : List Id)
   /-- the application lets go of its proxy of `k` -/
   | drop (k : Id)
   /-- the application takes the value of the oldest ready result and keeps its proxies -/
@@ -336,6 +366,10 @@ def appStep (a : App) : AOp → AOut × App
   | .fetch ks =>
     if a.s.closed then (.base .closed, a)
     else lift a (.fetch ks) a.held a.results (a.waiters ++ [false])
+  | .sendFail ks => lift a (.sendFail ks) a.held a.results a.waiters
+  | .fetchFail ks =>
+    if a.s.closed then (.base .closed, a)
+    else lift a (.fetchBad ks) a.held a.results (a.waiters ++ [false])
   | .back k echo =>
     if a.s.closed then (.base .closed, a)
     else if a.held.contains k then lift a (.back k echo) a.held a.results (if echo then a.waiters ++ [false] else a.waiters)
